@@ -23,14 +23,39 @@ type checker struct {
 	idx      int
 	amount   int64
 	prevouts []TxOut
+	quirks   Quirks
 }
 
 // machine carries the bookkeeping the Result reports.
 type machine struct {
-	flags Flags
-	chk   *checker
-	res   *Result
+	flags  Flags
+	quirks Quirks
+	chk    *checker
+	res    *Result
 }
+
+// Quirks switch on documented deviations of btcd from Bitcoin Core. They are
+// never part of the oracle: the check uses them only to recognise a
+// disagreement as one specific, listed known finding (the verdict flips back
+// to agreement when exactly that deviation is emulated).
+type Quirks uint32
+
+const (
+	// QuirkEmptySigKeepsOp0: FindAndDelete is skipped for an empty signature
+	// (Core deletes OP_0, the push of the empty vector, from the script code
+	// and CONST_SCRIPTCODE then fails the script).
+	QuirkEmptySigKeepsOp0 Quirks = 1 << iota
+	// QuirkStrictBER: without DERSIG/LOW_S/STRICTENC the signature is parsed
+	// by btcec's "BER" parser instead of Core's ecdsa_signature_parse_der_lax:
+	// short-form lengths only, the sequence length must fit and S must end
+	// exactly at the end of the sequence.
+	QuirkStrictBER
+	// QuirkMultisigSkipsPubkeyCheck: in CHECKMULTISIG the public key
+	// encoding check (STRICTENC / WITNESS_PUBKEYTYPE) is skipped for a key
+	// that is paired with an empty or unparseable signature (Core checks the
+	// encoding of every key it pairs with a signature).
+	QuirkMultisigSkipsPubkeyCheck
+)
 
 func hash160(b []byte) []byte {
 	h := sha256.Sum256(b)
@@ -632,7 +657,7 @@ func (m *machine) evalScript(stack [][]byte, script []byte, sv sigVersion, tctx 
 				}
 				scriptCode := script[beginCodeHash:]
 				for k := 0; k < nSigs; k++ {
-					if sv == sigBase {
+					if sv == sigBase && !(m.quirks&QuirkEmptySigKeepsOp0 != 0 && len(top(-isig-k)) == 0) {
 						var found int
 						scriptCode, found = FindAndDelete(scriptCode, PushData(top(-isig-k)))
 						if found > 0 && flags&ConstScriptCode != 0 {
@@ -646,7 +671,8 @@ func (m *machine) evalScript(stack [][]byte, script []byte, sv sigVersion, tctx 
 					if e := checkSignatureEncoding(sig, flags); e != OK {
 						return stack, e
 					}
-					if e := checkPubKeyEncoding(pk, flags, sv); e != OK {
+					skipPk := m.quirks&QuirkMultisigSkipsPubkeyCheck != 0 && !btcecSigParses(sig, flags)
+					if e := checkPubKeyEncoding(pk, flags, sv); e != OK && !skipPk {
 						return stack, e
 					}
 					if m.chk.checkECDSA(sig, pk, scriptCode, sv) {
@@ -705,7 +731,7 @@ func (m *machine) evalChecksig(sig, pk, scriptCode []byte, sv sigVersion, tctx *
 	flags := m.flags
 	switch sv {
 	case sigBase, sigWitnessV0:
-		if sv == sigBase {
+		if sv == sigBase && !(m.quirks&QuirkEmptySigKeepsOp0 != 0 && len(sig) == 0) {
 			var found int
 			scriptCode, found = FindAndDelete(scriptCode, PushData(sig))
 			if found > 0 && flags&ConstScriptCode != 0 {
@@ -901,13 +927,18 @@ func (m *machine) verifyWitnessProgram(witness [][]byte, version int, program []
 // spent by every input of tx (prevouts[idx] provides the script and amount;
 // the others only matter for taproot signature hashes).
 func Verify(tx *Tx, idx int, prevouts []TxOut, flags Flags) Result {
+	return VerifyQuirks(tx, idx, prevouts, flags, 0)
+}
+
+// VerifyQuirks is Verify with btcd deviations emulated (see Quirks).
+func VerifyQuirks(tx *Tx, idx int, prevouts []TxOut, flags Flags, quirks Quirks) Result {
 	res := Result{Err: OK, Stage: StageNone}
 	if idx < 0 || idx >= len(tx.In) || len(prevouts) != len(tx.In) {
 		res.Err, res.Stage = ErrUnknown, StagePre
 		return res
 	}
-	m := &machine{flags: flags, res: &res,
-		chk: &checker{tx: tx, idx: idx, amount: prevouts[idx].Value, prevouts: prevouts}}
+	m := &machine{flags: flags, quirks: quirks, res: &res,
+		chk: &checker{tx: tx, idx: idx, amount: prevouts[idx].Value, prevouts: prevouts, quirks: quirks}}
 	e, st := m.verify(tx.In[idx].ScriptSig, prevouts[idx].PkScript, tx.In[idx].Witness)
 	res.Err, res.Stage = e, st
 	return res
